@@ -218,14 +218,16 @@ Lemma wire_local i c r : no_agg_loopb -> In c (d_comps d) -> In r (c_refs c) ->
   ((exists n', a_prod a = iname i n') \/
    (0 < i /\ exists n', a_prod a = iname (i - 1) n') \/
    (exists b v, lookup b (d_binds d) = Some v /\ a_stage a = a_stage v /\ a_prod a = a_prod v /\
-                in_loop_ids d (a_stage v, a_prod v) = false)).
+                in_loop_ids d (a_stage v, a_prod v) = false) \/
+   (exists st n f m, r = RComp st n f m /\ a = mk_aref (opt_stage st (c_stage c) + d_stage d) n f m /\
+                     occurs "#" n = false)).
 Proof.
   intros NA Hc Hr. pose proof (wf_refs d WF c r Hc Hr) as Hok. destruct r as [b f m|st n f m]; cbn [wire ref_ok] in *.
   - destruct (lookup b (d_loopb d)) as [l|] eqn:El.
     + destruct (0 <? i) eqn:Ei.
       * rewrite (NA b l El). cbn. split; [apply (not_loop_id_iname d WF)|]. right. left. split; [lia|]. eexists. reflexivity.
       * destruct (lookup b (d_binds d)) as [v|] eqn:Ev; [|congruence]. cbn.
-        pose proof (wf_binds_outside d WF b v Ev) as Hv. split; [exact Hv|]. right. right. exists b, v. auto.
+        pose proof (wf_binds_outside d WF b v Ev) as Hv. split; [exact Hv|]. right. right. left. exists b, v. auto.
     + assert (E : match (0 <? i) with true | false =>
                     match lookup b (d_binds d) with
                     | Some v => mk_aref (a_stage v) (a_prod v) (merge_file (a_file v) f) (a_meth v)
@@ -237,8 +239,10 @@ Proof.
                   end) by (destruct (0 <? i); reflexivity).
       destruct (lookup b (d_binds d)) as [v|] eqn:Ev; [|congruence].
       pose proof (wf_binds_outside d WF b v Ev) as Hv.
-      destruct (0 <? i); cbn; (split; [exact Hv|]); right; right; exists b, v; auto.
-  - cbn. split; [apply (not_loop_id_iname d WF)|]. left. eexists. reflexivity.
+      destruct (0 <? i); cbn; (split; [exact Hv|]); right; right; left; exists b, v; auto.
+  - destruct Hok as [[Hin Hm]|[Hout Hh]]; cbv zeta.
+    + rewrite Hin. cbn. split; [apply (not_loop_id_iname d WF)|]. left. eexists. reflexivity.
+    + rewrite Hout. cbn. split; [exact Hout|]. right. right. right. exists st, n, f, m. auto.
 Qed.
 
 (* hence: a reference of instance i that names an instance at all names one of iteration i or i-1 — no edge from
@@ -248,10 +252,38 @@ Lemma wire_iterations i c r i' n' : no_agg_loopb ->
   In c (d_comps d) -> In r (c_refs c) ->
   a_prod (wire d i (c_stage c) r) = iname i' n' -> i' = i \/ (0 < i /\ i' = i - 1).
 Proof.
-  intros NA NH Hc Hr E. destruct (wire_local i c r NA Hc Hr) as [_ [[m Hm]|[[Hi [m Hm]]|[b [v [Hv [_ [Hp _]]]]]]]].
+  intros NA NH Hc Hr E.
+  destruct (wire_local i c r NA Hc Hr) as [_ [[m Hm]|[[Hi [m Hm]]|[[b [v [Hv [_ [Hp _]]]]]|[st [n [f [m [_ [Ha Hh]]]]]]]]]].
   - rewrite Hm in E. apply iname_inj in E as [-> _]. left. reflexivity.
   - rewrite Hm in E. apply iname_inj in E as [<- _]. right. auto.
   - exfalso. pose proof (NH b v Hv) as H. rewrite <- Hp, E, occurs_iname in H. discriminate.
+  - exfalso. rewrite Ha in E. cbn in E. rewrite E, occurs_iname in Hh. discriminate.
+Qed.
+
+(* ------------------------------------------------------------------ the Controller's view of a placeholder *)
+(* Controller._comp_get_active_predecessors / generate_status_report_for_nodes on the placeholder of the looped
+   component c after k further iterations: exactly the instances 0..k of c and the instance k of the component
+   that produces the loop's condition — whatever else carries the same NAME in another stage. *)
+Lemma ph_preds_spec c k n : In c (d_comps d) ->
+  (In n (ph_preds (unroll d out k) (comp_id (d_stage d) c)) <->
+   (exists i, i <= N.of_nat k /\ n = inode i c) \/
+   (exists cc, In cc (d_comps d) /\ comp_id (d_stage d) cc = cond_id d /\ n = inode (N.of_nat k) cc)).
+Proof.
+  intros Hc. destruct (unroll_inv d out WF k) as [Hd [Ho Hl]].
+  destruct (cur_of_upto d WF _ k Hd Hl) as [cc [Hcc [Hcid Hcur]]].
+  unfold ph_preds. rewrite Hcur, (represents_unroll d out WF c k Hc).
+  assert (Hreps : forall x, In x (map inst_node (instances_of d c k)) <-> exists i, i <= N.of_nat k /\ x = inode i c).
+  { intros x. rewrite in_map_iff. split.
+    - intros [y [<- Hy]]. apply in_instances_of in Hy as [i [Hi ->]]. exists i. auto.
+    - intros [i [Hi ->]]. exists (instance_of d i c). split; [reflexivity|]. apply in_instances_of. exists i. auto. }
+  assert (Hone : forall cc', In cc' (d_comps d) -> comp_id (d_stage d) cc' = cond_id d -> cc' = cc).
+  { intros cc' H1 H2. apply comp_of_id; auto. congruence. }
+  destruct (mem (inst_node (instance_of d (N.of_nat k) cc)) (map inst_node (instances_of d c k))) eqn:Em.
+  - apply mem_In in Em. rewrite Hreps. split; [intros H; left; exact H|].
+    intros [H|[cc' [H1 [H2 ->]]]]; [exact H|]. rewrite (Hone cc' H1 H2). apply Hreps. exact Em.
+  - rewrite in_app_iff, Hreps. cbn. split.
+    + intros [H|[<-|[]]]; [left; exact H|]. right. exists cc. auto.
+    + intros [H|[cc' [H1 [H2 ->]]]]; [left; exact H|]. right. left. rewrite (Hone cc' H1 H2). reflexivity.
 Qed.
 
 End Edges.
